@@ -13,7 +13,7 @@ import traceback
 from collections import namedtuple, OrderedDict
 from enum import IntEnum
 from hmac import HMAC
-from struct import unpack
+from struct import pack, unpack
 
 import xfrm
 from crypto import Cipher, Crypto, DiffieHellman, Integrity, Prf
@@ -478,7 +478,9 @@ class IkeSa(object):
 
         # check cookie
         if self.cookie_secret is not None:
-            expected_cookie = HMAC(self.cookie_secret, request.spi_i + payload_nonce.nonce + self.peer_addr.packed,
+            # the nonce is of variable length and the address has two: mark where the nonce ends, or different (nonce, address) pairs share a cookie
+            expected_cookie = HMAC(self.cookie_secret,
+                                   request.spi_i + pack('>H', len(payload_nonce.nonce)) + payload_nonce.nonce + self.peer_addr.packed,
                                    digestmod=hashlib.sha256).digest()
             received_cookies = request.get_notifies(PayloadNOTIFY.Type.COOKIE)
             if len(received_cookies) == 0 or received_cookies[0].notification_data != expected_cookie:
